@@ -44,6 +44,8 @@ type StressCase struct {
 	HardCancel bool         `json:"hard_cancel,omitempty"`
 	MaxConc    int          `json:"max_conc,omitempty"`
 	Transport  string       `json:"transport,omitempty"`
+	DataSources int         `json:"data_sources,omitempty"`
+	HdrMode    string       `json:"hdr_mode,omitempty"`
 	Keys       []Key        `json:"keys"`
 	Parts      []StressPart `json:"parts"`
 	Rounds     int          `json:"rounds"`
@@ -57,6 +59,10 @@ func genStress(t *rapid.T) StressCase {
 	c.MaxConc = rapid.SampledFrom([]int{0, 0, 0, 0, 0, 1, 2}).Draw(t, "maxconc")
 	if rapid.IntRange(0, 2).Draw(t, "opaque") == 0 {
 		c.Transport = "opaque"
+	}
+	c.DataSources = rapid.SampledFrom([]int{0, 0, 1, 2, 2, 3, 4}).Draw(t, "datasources")
+	if rapid.IntRange(0, 2).Draw(t, "rotate") == 0 {
+		c.HdrMode = "rotate"
 	}
 	c.Keys = genKeys(t)
 	n := rapid.IntRange(2, 6).Draw(t, "nparts")
@@ -82,7 +88,7 @@ func genStress(t *rapid.T) StressCase {
 }
 
 func (c StressCase) asCase() Case {
-	cc := Case{Layer: c.Layer, OpType: c.OpType, HardCancel: c.HardCancel, MaxConc: c.MaxConc, Transport: c.Transport, Keys: c.Keys}
+	cc := Case{Layer: c.Layer, OpType: c.OpType, HardCancel: c.HardCancel, MaxConc: c.MaxConc, Transport: c.Transport, DataSources: c.DataSources, HdrMode: c.HdrMode, Keys: c.Keys}
 	for _, p := range c.Parts {
 		cc.Parts = append(cc.Parts, Participant{Key: p.Key, Alt: p.Alt, Script: p.Script, WriteFail: p.WriteFail})
 	}
@@ -181,8 +187,8 @@ func runStress(sc StressCase, o rec, opts runOpts) (v pbt.Verdict, hist string) 
 				}()
 				<-start
 				spinFn(sp.Spin)()
-				rc := rg.request(p.ctx, c.Layer, c.OpType, p.key, sp.Alt, p.w)
-				info, err := rg.resolver.ArenaResolveGraphQLResponse(rc, rg.plan(k.Op, sp.Alt, c.OpType), p.wr)
+				rc := rg.request(p.ctx, c.Layer, c.OpType, c.HdrMode, p.key, sp.Alt, p.w)
+				info, err := rg.resolver.ArenaResolveGraphQLResponse(rc, rg.plan(k.Op, sp.Alt, c.OpType, c.DataSources), p.wr)
 				p.out.Returned = true
 				p.out.err = err
 				if err != nil {
